@@ -313,6 +313,13 @@ def check_c11(prop, tier):
                         f[(field + 1) % 4] = m
                     for tail in (b'-a\n+b\n', b'', b'-a\n'):
                         add(b'--- a/x\n+++ b/x\n@@ -%d,%d +%d,%d @@\n' % tuple(f) + tail, 'numeric')
+        # well-formed hunks (counts agree with the body) at every class of line number, incl. empty sides: these are
+        # accepted by the parser whenever the numbers fit and reach the placement and the failure-hint code
+        for o in NUMS:
+            for n_ in NUMS:
+                for oc, nc, body in ((1, 1, b'-a\n+b\n'), (0, 1, b'+b\n'), (1, 0, b'-a\n'), (2, 1, b' c\n-a\n+b\n'), (3, 3, b' c\n c\n-zz\n+b\n'), (3, 3, b' c\n-zz\n+b\n c\n'),
+                                     (2, 2, b'-zz\n+b\n c\n')):
+                    add(b'--- a/x\n+++ b/x\n@@ -%d,%d +%d,%d @@\n' % (o, oc, n_, nc) + body, 'numeric')
         # truncation at every byte offset and seeded byte mutations of a sample of the token renderings
         sample = rnd.sample(range(len(cases)), min(len(cases), 1500 if tier == 'quick' else 12000))
         for ci in sample:
@@ -375,16 +382,20 @@ def check_c11(prop, tier):
             if shape not in seen_shapes:
                 seen_shapes.add(shape); distinct.append(jid)
         pick += distinct if len(distinct) <= (2500 if tier == 'quick' else 20000) else rnd.sample(distinct, 2500 if tier == 'quick' else 20000)
-        pick += list(range(nbase, min(len(jobs), nbase + 4 * len(NUMS) * 6)))[::3]
+        pick += list(range(nbase, nbase + 4 * len(NUMS) * 6))[::3] + list(range(nbase + 4 * len(NUMS) * 6, nbase + 4 * len(NUMS) * 6 + 7 * len(NUMS) ** 2))
         for jid in pick:
             cli_jobs.append(('patch', jobs[jid][1], b'p.patch\n'))
         stoks = [b'p.patch', b'-p0', b'-p1', b'-p', b'2', b'--strip=2', b'--strip', b'-R', b'--reverse', b'-Rp2', b'#c', b'-x', b'--bogus', b'',
-                 b'-p99999999999999999999', b'-p-1', b'\xff\xfe', b'q.patch', b' ', b'\t', b'-pR']
+                 b'-p99999999999999999999', b'-p-1', b'\xff\xfe', b'q.patch', b' ', b'\t', b'-pR'] + [b'-p%d' % n for n in NUMS[3:]]
         for _ in range(300 if tier == 'quick' else 3000):
             lines = []
             for _ in range(rnd.randint(1, 3)):
                 lines.append(b' '.join(rnd.choice(stoks) for _ in range(rnd.randint(1, 4))))
             cli_jobs.append(('series', b'--- a/x\n+++ b/x\n@@ -1 +1 @@\n-a\n+b\n', b'\n'.join(lines) + (b'\n' if rnd.random() < 0.8 else b'')))
+        # every class of number as a strip level, in the spellings getopts accepts
+        for n in NUMS:
+            for sp in (b'p.patch -p%d', b'p.patch -p %d', b'p.patch --strip=%d', b'p.patch -R -p%d', b'p.patch -Rp%d'):
+                cli_jobs.append(('series', b'--- a/x\n+++ b/x\n@@ -1 +1 @@\n-a\n+b\n', sp % n + b'\n'))
         with Pool(12) as pool:
             outs = pool.map(_cli_total, cli_jobs, chunksize=8)
         nb = 0
@@ -412,11 +423,13 @@ def _cli_total(job):
     kind, patch, series = job
     w = ws.mkws('c11')
     try:
-        ws.write(w, 'x', b'a\n')
+        ws.write(w, 'x', b'c\na\nc\n' if len(patch) % 3 else b'a\n')
         ws.write(w, 'patches/p.patch', patch)
         ws.write(w, 'patches/q.patch', b'')
         ws.write(w, 'series', series)
-        rc, so, se = ws.push(w, ['-a', '-q', '--threads', '1' if len(patch) % 2 else '2'], timeout=20, retry_ok=True)
+        # all verbosity levels: the failure hints (diagnostics.rs) run only when the push is not quiet
+        verb = ([], ['-q'], ['-v'], ['-v', '-v'])[(len(patch) // 2 + len(series)) % 4]
+        rc, so, se = ws.push(w, ['-a', '--threads', '1' if len(patch) % 2 else '2'] + verb, timeout=20, retry_ok=True)
         return rc, se
     finally:
         ws.rmws(w)
